@@ -226,9 +226,9 @@ class MemEnv(Environment):
     def read(self): return build_seq(self._sd)
 
 
-def facade(f, p, sd):
-    """The same filter reached through the Environments facade (coba/environments/core.py)."""
-    e = Environments(MemEnv(sd))
+def facade(f, p, *sds):
+    """The same filter reached through the Environments facade (coba/environments/core.py), over one or more environments."""
+    e = Environments([MemEnv(sd) for sd in sds])
     t = lambda s: tuple(s) if isinstance(s, list) else s
     if f == 'Identity': return e.filter(ef.Identity())
     if f == 'Chunk': return e.chunk(cache=False)
@@ -246,6 +246,56 @@ def facade(f, p, sd):
 
 
 FACADE_FLAVOURS = [('sim', 'dense'), ('log', 'sparse'), ('gnd', 'none')]
+
+
+# object-history cases: ONE filter object (or one Environments.<method>() call) over two different sequences A and B
+HIST_FLAVOURS = {
+    'quick': [(('sim', 'dense'), ('sim', 'dense')), (('sim', 'dense'), ('log', 'dense')), (('log', 'sparse'), ('sim', 'dense')),
+              (('gnd', 'none'), ('sim', 'scalar')), (('log', 'dense'), ('log', 'dense')), (('sim', 'dense'), ('sim', 'sparse'))],
+}
+HIST_FLAVOURS['thorough'] = HIST_FLAVOURS['quick'] + [(('sim', 'sparse'), ('sim', 'sparse')), (('sim', 'scalar'), ('gnd', 'dense')),
+                                                      (('log', 'none'), ('log', 'sparse')), (('gnd', 'dense'), ('gnd', 'dense'))]
+HIST_FACADE_FLAVOURS = {'quick': HIST_FLAVOURS['quick'][:3], 'thorough': HIST_FLAVOURS['quick']}
+HIST_WHERE = [{'ni': ni, 'na': na, 'nf': nf} for ni in (None, 2, [1, 3], [None, 2], [3, None]) for na in (None, [2, 3]) for nf in (None, [1, 2])]
+
+
+def hist_filter_cases(M, tier, ctxA):
+    """(filter, params) of the object-history cases for a pair whose longer sequence has M interactions.
+    Cache and Chunk are left out: the statement only makes them the identity on the stream they are attached to
+    (Cache is stateful by design: it keeps the first stream it sees)."""
+    for f, p in filter_cases(M, tier):
+        if f in ('Cache', 'Chunk'): continue
+        yield f, p
+    yield from hist_extra(ctxA)
+
+
+def hist_extra(ctxA):
+    # key 0 is legal on dense (index) and on sparse contexts (absent key), so it survives a change of representation
+    for keys in (([], [0], ['a'], ['b', 'a']) if ctxA == 'sparse' else ([], [0], [1, 0])):
+        yield 'Sort', {'keys': keys, 'form': 'args'}
+    for p in HIST_WHERE:
+        yield 'Where', p
+
+
+def hist_cases(M, tier):
+    for nA in range(M + 1):
+        for nB in range(M + 1):
+            if max(nA, nB) != M: continue
+            for (kA, cA), (kB, cB) in HIST_FLAVOURS[tier]:
+                if nA == nB and (kA, cA) == (kB, cB): continue          # that is the plain re-use run of the single-sequence cases
+                A = {'n': nA, 'kind': kA, 'ctx': cA}; B = {'n': nB, 'kind': kB, 'ctx': cB}
+                for f, p in hist_filter_cases(M, tier, cA):
+                    yield {'f': f, 'p': p, 'A': A, 'B': B, 'via': 'reuse'}
+            for (kA, cA), (kB, cB) in HIST_FACADE_FLAVOURS[tier]:
+                A = {'n': nA, 'kind': kA, 'ctx': cA}; B = {'n': nB, 'kind': kB, 'ctx': cB}
+                for f, p in itertools.chain(filter_cases(M, tier), hist_extra(cA)):
+                    if f == 'BatchSafe' or (f == 'Shuffle' and p['cls'] != 'env') or (f == 'Cache' and (p['abandon'] is not None or p['n_slice'] != 25)): continue
+                    if f == 'Reservoir' and not isinstance(p['seed'], int): continue
+                    yield {'f': f, 'p': p, 'A': A, 'B': B, 'via': 'facade2'}
+
+
+def length_relation(prev, cur):
+    return 'after a shorter sequence' if prev < cur else 'after a longer sequence' if prev > cur else 'after an equally long sequence'
 
 
 class _Rec:
@@ -328,6 +378,10 @@ class C09(Check):
                     for acts in ('var', 'const'):
                         if acts == 'const' and p['na'] is None: continue
                         yield {'f': 'Where', 'p': p, 's': {'n': N, 'kind': kind, 'ctx': ctx, 'acts': acts}}
+            # one filter object / one Environments call over two different sequences whose longer one has N interactions
+            yield from hist_cases(N, tier)
+        if tier == 'quick':
+            yield from hist_cases(maxn + 1, tier)        # object histories over lengths 0..5 x 0..5
 
     # -------------------------------------------------------------- real filters
     @staticmethod
@@ -474,8 +528,94 @@ class C09(Check):
         acc.outcome((comp, tuple(runs[0])))
         if runs[0] != list(range(N)) or (f in ('Chunk', 'Params', 'Cache', 'BatchUnbatch', 'Identity') and N >= 1): acc.mark_nontrivial()
 
+    def _eval_reuse(self, case, acc):
+        """ONE filter object applied to A, then to a different sequence B, then to A again: every output must be what a
+        fresh filter with the same parameters gives on that input, must satisfy the reference model and keep the content."""
+        f, p, A, B = case['f'], case['p'], case['A'], case['B']
+        feat = self.feature(f, p, A)
+        fresh = {}
+        for name, sd in (('A', A), ('B', B)):
+            try:
+                fresh[name] = [o.get('tag') for o in self.make(f, p).filter(build_seq(sd))]
+            except Exception:   # noqa   (a parameter/sequence combination the filter rejects: judged by the single-sequence cases)
+                fresh[name] = None
+        try:
+            flt = self.make(f, p)
+        except Exception:       # noqa   (reported by the single-sequence cases)
+            return
+        steps = (('A', A, None), ('B', B, A), ('A', A, B))
+        for idx, (name, sd, prev) in enumerate(steps):
+            N = sd['n']
+            rel = 'first use' if prev is None else length_relation(prev['n'], N)
+            K = lambda mode, extra=None: f"{f}|{mode}|{extra if extra is not None else feat}; {rel}"
+            snap = build_seq(sd); inp = build_seq(sd); orig = list(inp)
+            try:
+                out = list(flt.filter(inp))
+            except Exception as e:   # noqa
+                if fresh[name] is None:
+                    acc.outcome(f'{f}:rejected:{type(e).__name__}'); continue
+                acc.violation(K(f'raises {type(e).__name__} only after the filter object was applied to another sequence'),
+                              f'{f}({p}) on {N} {sd["kind"]}/{sd["ctx"]} interactions (use #{idx + 1} of the object) raised {e!r}; a fresh filter returns tags {fresh[name]}'); return
+            if len(inp) != N or any(a is not b for a, b in zip(inp, orig)):
+                acc.violation(K('caller list modified (order/length)'), f'input list changed to tags {[x.get("tag") for x in inp]}'); return
+            tags = []
+            for o in out:
+                t = o.get('tag') if isinstance(o, dict) else None
+                if not isinstance(t, int) or isinstance(t, bool) or not (0 <= t < N):
+                    acc.violation(K('output is not an interaction of the current input'), f'use #{idx + 1}: output item {o!r}'); return
+                if not same_inter(o, snap[t]):
+                    acc.violation(K('interaction content altered', f'{sd["kind"]}/{sd["ctx"]}'), f'expected {dict(snap[t])!r}, got {dict(o)!r}'); return
+                tags.append(t)
+            if fresh[name] is None: continue
+            if tags != fresh[name]:
+                acc.violation(K('output depends on what the filter object was applied to before'),
+                              f'{f}({p}): one object applied to {[(x[1]["n"], x[1]["kind"] + "/" + x[1]["ctx"]) for x in steps[:idx + 1]]} gives tags {tags} '
+                              f'on the last one, a fresh {f}({p}) gives {fresh[name]}'); return
+            exp = self.expect(f, p, sd, snap)
+            if not self.compare(f, p, sd, exp, tags, N, acc, K, f'use #{idx + 1} of one object'): return
+        acc.outcome((f, 'reuse', tuple(fresh['A'] or ()), tuple(fresh['B'] or ())))
+        if any(fresh[n] is not None and (fresh[n] != list(range(sd['n'])) or sd['n'] >= 1) for n, sd in (('A', A), ('B', B))) and (A != B):
+            acc.mark_nontrivial()
+
+    def _eval_facade2(self, case, acc):
+        """ONE Environments.<method>() call over two environments (the facade joins a single filter object to every
+        member): each member, read in order A, B, A, must give (by tag) what the same method gives on it alone."""
+        f, p, A, B = case['f'], case['p'], case['A'], case['B']
+        comp = 'Environments.' + {'BatchUnbatch': 'batch.unbatch', 'Identity': 'filter'}.get(f, f.lower())
+        feat = self.feature(f, p, A)
+        alone = {}
+        for name, sd in (('A', A), ('B', B)):
+            try:
+                alone[name] = [o.get('tag') for o in facade(f, p, sd)[0].read()]
+            except Exception:   # noqa   (judged by the single-environment facade cases / Finalize rejecting an empty result)
+                alone[name] = None
+        try:
+            envs = facade(f, p, A, B)
+            if len(envs) != 2:
+                acc.violation(f'{comp}|not one environment per input environment|{feat}', f'{len(envs)} environments for 2'); return
+        except Exception as e:   # noqa
+            acc.violation(f'{comp}|raises {type(e).__name__} on two environments|{feat}', f'{comp}({p}) raised {e!r}'); return
+        steps = ((0, 'A', A, None), (1, 'B', B, A), (0, 'A', A, B))
+        for idx, (pos, name, sd, prev) in enumerate(steps):
+            rel = 'first read' if prev is None else length_relation(prev['n'], sd['n'])
+            K = lambda mode: f"{comp}|{mode}|{feat}; {rel}"
+            try:
+                tags = [o.get('tag') for o in envs[pos].read()]
+            except Exception as e:   # noqa
+                if alone[name] is None or not alone[name]: continue
+                acc.violation(K(f'raises {type(e).__name__} only next to another environment'), f'{comp}({p}) read #{idx + 1} raised {e!r}; alone -> tags {alone[name]}'); return
+            if alone[name] is None: continue
+            if tags != alone[name]:
+                acc.violation(K('member differs from the same method applied to it alone'),
+                              f'{comp}({p}) over environments of {A["n"]} {A["kind"]}/{A["ctx"]} and {B["n"]} {B["kind"]}/{B["ctx"]} interactions: read #{idx + 1} '
+                              f'(environment {name}) gives tags {tags}, alone it gives {alone[name]}'); return
+        acc.outcome((comp, 'two', tuple(alone['A'] or ()), tuple(alone['B'] or ())))
+        if (alone['A'] or alone['B']) and A != B: acc.mark_nontrivial()
+
     def _eval(self, case, acc):
         if case.get('via') == 'facade': return self._eval_facade(case, acc)
+        if case.get('via') == 'reuse': return self._eval_reuse(case, acc)
+        if case.get('via') == 'facade2': return self._eval_facade2(case, acc)
         f, p, sd = case['f'], case['p'], case['s']
         N = sd['n']
         snap = build_seq(sd)                       # pristine copy (never handed to coba)
